@@ -196,28 +196,28 @@ Definition recalc_g (kids : list shape) : res gxf :=
 Definition set_nth {A} (i : nat) (a : A) (l : list A) : list A :=
   firstn i l ++ a :: skipn (S i) l.
 
-(** Append [new] to the group reached from [s] by the child indices [p]; with
-    [rc = true] the receiving group and then each of its ancestors up to [s] get
-    recalculate_extents (innermost first), with [rc = false] nothing is recalculated
-    (this is what add_group_shape with no members and FreeformBuilder.convert_to_shape
-    do).  A path that does not lead to a group is an IndexErr of the test driver. *)
-Fixpoint add_in (p : list nat) (new : shape) (rc : bool) (s : shape) {struct p} : res shape :=
+(** Append [new] to the group reached from [s] by the child indices [p]; the receiving
+    group and then each of its ancestors up to [s] get recalculate_extents (innermost
+    first).  Every add_* method of GroupShapes ends this way: add_shape, add_textbox,
+    add_picture, add_connector call _recalculate_extents, add_group_shape calls
+    recalculate_extents on the new (empty, hence all-zero) group which recurses upward,
+    FreeformBuilder.convert_to_shape calls _recalculate_extents of its shape collection.
+    A path that does not lead to a group is an IndexErr of the test driver. *)
+Fixpoint add_in (p : list nat) (new : shape) (s : shape) {struct p} : res shape :=
   match s with
   | Leaf _ _ _ _ => Err IndexErr
   | Grp g kids =>
       match p with
       | [] =>
           let kids' := kids ++ [new] in
-          if rc then bind (recalc_g kids') (fun g' => Ok (Grp g' kids'))
-          else Ok (Grp g kids')
+          bind (recalc_g kids') (fun g' => Ok (Grp g' kids'))
       | i :: p' =>
           match nth_error kids i with
           | None => Err IndexErr
           | Some k =>
-              bind (add_in p' new rc k) (fun k' =>
+              bind (add_in p' new k) (fun k' =>
                 let kids' := set_nth i k' kids in
-                if rc then bind (recalc_g kids') (fun g' => Ok (Grp g' kids'))
-                else Ok (Grp g kids'))
+                bind (recalc_g kids') (fun g' => Ok (Grp g' kids')))
           end
       end
   end.
@@ -225,20 +225,26 @@ Fixpoint add_in (p : list nat) (new : shape) (rc : bool) (s : shape) {struct p} 
 (** A slide (p:spTree): its recalculate_extents does nothing. *)
 Definition slide := list shape.
 
-Definition slide_add (p : list nat) (new : shape) (rc : bool) (sl : slide) : res slide :=
+Definition slide_add (p : list nat) (new : shape) (sl : slide) : res slide :=
   match p with
   | [] => Ok (sl ++ [new])
   | i :: p' =>
       match nth_error sl i with
       | None => Err IndexErr
-      | Some k => bind (add_in p' new rc k) (fun k' => Ok (set_nth i k' sl))
+      | Some k => bind (add_in p' new k) (fun k' => Ok (set_nth i k' sl))
       end
   end.
 
-Record gop := mkGop { go_path : list nat; go_new : shape; go_rc : bool }.
+(** The kinds of member the add_* methods create: something with an xfrm, or a new
+    empty group (CT_GroupShape.new_grpSp: all zeros). *)
+Inductive member := MLeaf (x y cx cy : Z) | MGroup.
+Definition member_shape (m : member) : shape :=
+  match m with MLeaf x y cx cy => Leaf x y cx cy | MGroup => Grp gxf0 [] end.
+
+Record gop := mkGop { go_path : list nat; go_new : member }.
 
 Definition gstep (sl : slide) (op : gop) : res slide :=
-  slide_add (go_path op) (go_new op) (go_rc op) sl.
+  slide_add (go_path op) (member_shape (go_new op)) sl.
 
 (** A history of additions, giving up at the first error. *)
 Fixpoint slide_run (sl : slide) (ops : list gop) : res slide :=
